@@ -47,6 +47,20 @@ class _Cursor:
         self._conn._point(sql)
         return self._c.execute(sql, *a)
 
+    def executemany(self, sql, seq):
+        # on an autocommit connection every parameter set is a statement (and a transaction) of its own: a scheduling /
+        # kill point before each of them
+        for params in seq:
+            self._conn._point(sql)
+            self._c.execute(sql, params)
+        return self
+
+    def executescript(self, script):
+        for stmt in [x.strip() for x in script.split(";") if x.strip()]:
+            self._conn._point(stmt)
+            self._c.execute(stmt)
+        return self
+
     def __getattr__(self, n):
         return getattr(self._c, n)
 
@@ -72,6 +86,12 @@ class _Conn:
     def execute(self, sql, *a):
         self._point(sql)
         return self._r.execute(sql, *a)
+
+    def executemany(self, sql, seq):
+        return self.cursor().executemany(sql, seq)
+
+    def executescript(self, script):
+        return self.cursor().executescript(script)
 
     def commit(self):
         if self._r.in_transaction:
@@ -142,6 +162,8 @@ def install(idm):
             rows = [r[0] for r in rows if in_filter(idm, self_sp, subspace, r[0])]
             if rows:
                 val = a.rng.choice(rows)
+        if val is None and a is not None and a.then and len(a.samples) >= a.collide_first:
+            val = a.then.pop(0)          # scripted samples (after the forced collisions): two calls can be made to draw the same id
         if val is None:
             val = orig(self_sp, subspace)
         if a is not None:
@@ -176,6 +198,7 @@ class Agent:
         self.now_us = 0
         self.collide = 0.0
         self.collide_first = 0      # the first n samples of the call are forced to collide with existing rows
+        self.then = []              # ids returned by the following samples, in order (then random again)
         self.samples = []
         self.op_index = -1
         self.op_kind = "open"
@@ -185,9 +208,10 @@ class Agent:
         self.txn_done_in_op = False
         self.trace = []             # every statement: dict(op, sql, kind, event)
 
-    def begin_op(self, i, kind, now_us=0, collide=0.0, collide_first=0):
+    def begin_op(self, i, kind, now_us=0, collide=0.0, collide_first=0, then=()):
         self.op_index, self.op_kind = i, kind
         self.now_us, self.collide, self.collide_first = now_us, collide, collide_first
+        self.then = list(then)
         self.samples = []
         self.body_done = False
         self.txn_done_in_op = False
@@ -448,7 +472,7 @@ class Scheduler:
             mgr = self.idm.IDManager(self.path, max_ids_per_subspace=self.max_ids)
             ag.free_run = False
             for i, op in enumerate(self.proc_ops[tid]):
-                ag.begin_op(i, op["k"], op_now(op), op.get("collide", 0.0), op.get("collide_first", 0))
+                ag.begin_op(i, op["k"], op_now(op), op.get("collide", 0.0), op.get("collide_first", 0), op.get("then", ()))
                 res = run_op(self.idm, mgr, op, self.toks)
                 self.results[tid].append(res)
                 self.samples[tid].append(list(ag.samples))
